@@ -44,6 +44,8 @@ def is_zero(e):
     e = sp.sympify(e)
     if e == 0:
         return True
+    if e.has(sp.Piecewise):
+        return sp.simplify(sp.piecewise_fold(e)) == 0
     return sp.cancel(sp.together(sp.expand(e))) == 0
 
 
@@ -316,6 +318,7 @@ class Interp:
         self.assume = []          # extra facts for index guards
         self.return_value = None
         self.decl_depth = {}
+        self.this_obj = []
         self.case = None          # {"first": bool, "last": bool}: kind of the symbolic iteration; size guards use "generic n"
         self.case_log = []
         self.field_assumptions = {}
@@ -486,6 +489,14 @@ class Interp:
 
     def e_mem(self, e, env):
         b = e["base"]
+        if b.get("k") == "this" and self.this_obj:
+            st = self.this_obj[-1]
+            if e["field"] not in st.f:
+                raise Unsupported("object %s has no field %s" % (st.name, e["field"]))
+            x = st.f[e["field"]]
+            if isinstance(x, (Container, Struct, BlockVec, SmallMat)):
+                return x
+            return Ref("field", struct=st, name=e["field"])
         if b.get("k") == "this":
             v = self.field(e.get("cls"), e["field"])
             if isinstance(v, (Container, Struct, BlockVec, SmallMat)):
@@ -784,7 +795,7 @@ class Interp:
         raise Unsupported("init list")
 
     def e_lambda(self, e, env):
-        return ("lambda", e, env)
+        return ("lambda", e, env, list(self.this_obj))
 
     def e_conv(self, e, env):
         return self.ev(e["obj"], env)
@@ -831,9 +842,23 @@ class Interp:
     def call_repo(self, f, e, env):
         if self.depth > 12:
             raise Unsupported("call depth")
+        # arguments and the object expression are evaluated in the caller's context
         env2 = {}
         for p, a in zip(f["params"], e.get("args", [])):
             env2[p["id"]] = self.bind_param(p, a, env)
+        new_this = None
+        if "obj" in e and f.get("kind") in ("method", "conv") and not f.get("static"):
+            ob = e["obj"]
+            if not (isinstance(ob, dict) and ob.get("k") == "this"):
+                ov = self.evl(ob, env)
+                ov = self.load(ov) if isinstance(ov, Ref) else ov
+                if isinstance(ov, Struct):
+                    new_this = ov
+                elif ov == "this" or ov is None:
+                    pass
+                else:
+                    raise Unsupported("method call on %s (line %s)" % (type(ov).__name__, e.get("line")))
+        ci = None
         if self.log_calls:
             snap = []
             for p in f["params"]:
@@ -846,11 +871,15 @@ class Interp:
             self.calls.append({"name": f["name"], "fid": f["fid"], "args": snap, "line": e.get("line"), "env": env2,
                                "loop": self.loop_stack[-1]["summary"] if self.loop_stack else None})
             ci = len(self.calls) - 1
+        if new_this is not None:
+            self.this_obj.append(new_this)
         self.depth += 1
         try:
             r = self.run_body(f, env2)
         finally:
             self.depth -= 1
+            if new_this is not None:
+                self.this_obj.pop()
         if self.log_calls:
             outs = []
             for p in f["params"]:
@@ -870,11 +899,15 @@ class Interp:
         env2 = dict(cap_env)
         for p, a in zip(spec["params"], e.get("args", [])):
             env2[p["id"]] = self.bind_param(p, a, env)
+        saved_this = self.this_obj
+        if isinstance(lv, tuple) and lv[0] == "lambda" and len(lv) > 3:
+            self.this_obj = list(lv[3])
         self.depth += 1
         try:
             r = self.exec_block_returning(spec["body"], env2)
         finally:
             self.depth -= 1
+            self.this_obj = saved_this
         return r
 
     def run_body(self, f, env):
@@ -1620,6 +1653,9 @@ class Interp:
             return v
         for x in env.values():
             if isinstance(x, Container) and x.name == name:
+                return x
+        for x in self.all_containers(env):
+            if x.name == name:
                 return x
         return None
 
